@@ -49,8 +49,11 @@ using namespace celeritas;
 using LD = long double;
 
 constexpr LD eps = 1.1102230246251565e-16L;  // 2^-53, unit roundoff
-// Safety factor on every first-order rounding bound (calibrated: see notes)
-constexpr LD KT = 32;
+// Safety factor on every first-order rounding bound.  Calibration (C12_CALIB,
+// 1e6 cases, required crossings only): largest observed root error 2.0
+// eps*cond, normal 0.93, sense mismatch only below 1.8 eps*cond; planted
+// defects are O(1) >> 1e12 eps.
+constexpr LD KT = 256;
 constexpr LD min_a = 1e-10L;  // QuadraticSolver::min_a() == sqrt_quadratic^2
 
 // Development aid (C12_CALIB=1): largest observed error / (eps * condition)
@@ -232,6 +235,7 @@ struct RayRefs
     LD wlo = 0, whi = 0;
     char const* zone = "zone-quad";
     int zone_id = 0;  // 0 quad, 1 along (|a| < min_a), 2 ambiguous
+    LD far_lo = INFINITY;  // ambiguous zone: one value >= far_lo accepted
     bool start_in_noise = false;  // |f(p)| below the rounding noise
     bool out_of_contract = false;
 };
@@ -262,6 +266,13 @@ RayRefs reference_roots(Quad const& q, SK sk, LD const y[3], LD const d[3],
             return rr;
         }
         LD berr = KT * eps * r.Babs;
+        if (fabsl(r.b) <= berr)
+        {
+            // parallel to rounding: the code's n.d (possibly fused) may be
+            // any tiny number of either sign -> nothing, or a huge distance
+            rr.far_lo = fabsl(r.c) / (fabsl(r.b) + berr) / 4;
+            rr.zone = "zone-linear-parallel";
+        }
         if (r.b == 0)
             return rr;  // exactly parallel: 'n_dir != 0' test
         LD t = -r.c / r.b;
@@ -329,6 +340,8 @@ RayRefs reference_roots(Quad const& q, SK sk, LD const y[3], LD const d[3],
         LD tol = KT * eps * (r.Babs + fabsl(t) * Aabs) / fabsl(a)
                  + KT * eps * fabsl(t);
         add_ref(rr, t, tol, zone == 2);
+        if (zone == 2 && r.b != 0)
+            rr.far_lo = fabsl(r.b) / (fabsl(a) + 4 * aerr) / 4;
         // 'on' is a logical state: the true crossing differs from -b/a by
         // the self-root ~ c/b (documented in QuadraticSolver::operator()())
         if (!rr.refs.empty())
@@ -352,6 +365,10 @@ RayRefs reference_roots(Quad const& q, SK sk, LD const y[3], LD const d[3],
                      + 4 * fabsl(a) * t * t / fabsl(r.b) + 1e-6L * fabsl(t);
             add_ref(rr, t, tol, true);
         }
+        // far root ~ -b/a with a known only to +-aerr: anything beyond
+        // |b| / (|a| + 4 aerr) / 4 is acceptable (once)
+        if (r.b != 0)
+            rr.far_lo = fabsl(r.b) / (fabsl(a) + 4 * aerr) / 4;
         LD rq[2];
         int n = solve_quadratic(a, r.b, cc, rq);
         for (int i = 0; i < n; ++i)
@@ -728,7 +745,7 @@ Verdict check_quadric(S const& s, Quad const& q, SK sk, int t_axis,
             return log.fail(
                 "calc_intersections returned distance 0 (solve_along_surface "
                 "with c == 0: '< 0' instead of '<= 0')",
-                "F11-along-surface-zero-distance");
+                "F25-along-surface-zero-distance");
         }
         if (!(v > 0))
             return log.fail("calc_intersections returned non-positive "
@@ -740,6 +757,7 @@ Verdict check_quadric(S const& s, Quad const& q, SK sk, int t_axis,
     log.dv("got", got.data(), int(got.size()));
 
     int in_window = 0;
+    bool far_used = false;
     std::vector<std::pair<double, Ref const*>> matched;
     for (double gv : got)
     {
@@ -759,9 +777,17 @@ Verdict check_quadric(S const& s, Quad const& q, SK sk, int t_axis,
         }
         if (best)
         {
-            if (best->tol > 0)
-                g_calib.root = std::max(g_calib.root,
-                                        (double)(bestd / (best->tol / KT)));
+            if (best->tol > 0 && best->required)
+            {
+                double ratio = (double)(bestd / (best->tol / KT));
+                g_calib.root = std::max(g_calib.root, ratio);
+                if (ratio > 30 && std::getenv("C12_DEBUG"))
+                    std::fprintf(stderr,
+                                 "BIGRATIO %g %s %s on=%d req=%d t=%.17Lg "
+                                 "got=%.17g tol=%.3Lg\n",
+                                 ratio, kname, rr.zone, int(on),
+                                 int(best->required), best->t, gv, best->tol);
+            }
             best->used = true;
             matched.emplace_back(gv, best);
             continue;
@@ -769,6 +795,11 @@ Verdict check_quadric(S const& s, Quad const& q, SK sk, int t_axis,
         if (rr.window && gv >= rr.wlo && gv <= rr.whi && in_window < 2)
         {
             ++in_window;
+            continue;
+        }
+        if (gv >= rr.far_lo && !far_used)
+        {
+            far_used = true;
             continue;
         }
         std::string m = "calc_intersections returned " + fmt(gv)
@@ -1644,7 +1675,7 @@ Verdict k_involute(CaseCtx& cx)
                     "involute calc_sense(p) = " + std::to_string(int(ss))
                         + " but reference " + std::to_string(e.sense),
                     (e.sense < 0 && int(ss) > 0 && f14_class(ref, P[0], P[1]))
-                        ? "F14-involute-cw-negative-angle-sense"
+                        ? "F28-involute-cw-negative-angle-sense"
                         : "");
             log.count("inv_sense_checked");
         }
@@ -1783,7 +1814,10 @@ Verdict k_involute(CaseCtx& cx)
     if (n2 > 0)
     {
         LD f0 = ref.F(0, P, U / n2, V / n2);
-        if (fabsl(f0) <= 1e-9L * (rb + sqrtl(P[0] * P[0] + P[1] * P[1])))
+        // (also: |F(0)| below the solver's convergence tolerance r_b*1e-8
+        // stops its iteration at once with t ~ 0 - documented tolerance)
+        if (fabsl(f0) <= std::max(1e-9L * (rb + sqrtl(P[0] * P[0] + P[1] * P[1])),
+                                  4e-8L * rb))
         {
             for (auto& r : refs)
                 r.required = false;
@@ -1827,7 +1861,9 @@ Verdict k_involute(CaseCtx& cx)
         LD bestd = 0;
         for (auto& r : refs)
         {
-            if (r.used)
+            // (an optional contact/end-point reference may be reported from
+            // both adjacent search brackets: tolerate the duplicate)
+            if (r.used && r.required)
                 continue;
             LD dd = fabsl((LD)gv - r.t3);
             if (dd <= r.tol3 && (!best || dd < bestd))
@@ -1867,8 +1903,33 @@ Verdict k_involute(CaseCtx& cx)
                 bool differ = ((fl > 0) - (fl < 0)) != ((fu > 0) - (fu < 0));
                 if (r.tcurve > tl && r.tcurve < tu)
                 {
+                    // number of roots of F inside this bracket (F is
+                    // monotone between zeros of F', spaced pi)
+                    int nroots = 0;
+                    {
+                        LD base = atan2l(v, u) - ref.A;
+                        LD prev_t = tl, prev_f = fl;
+                        for (LD k = ceill((tl - base) / pi);; k += 1)
+                        {
+                            LD tk = std::min(base + k * pi, tu);
+                            if (tk > prev_t)
+                            {
+                                LD fk = ref.F(tk, P, u, v);
+                                if ((fk > 0) != (prev_f > 0))
+                                    ++nroots;
+                                prev_t = tk;
+                                prev_f = fk;
+                            }
+                            if (tk >= tu)
+                                break;
+                        }
+                    }
                     LD noise = 1e-9L * (rb + sqrtl(P[0] * P[0] + P[1] * P[1]));
-                    f13 = !differ && fabsl(fl) > noise && fabsl(fu) > noise;
+                    // even number: bracket skipped; odd number >= 3: only
+                    // one of them is located
+                    f13 = nroots >= 2
+                          && (differ
+                              || (fabsl(fl) > noise && fabsl(fu) > noise));
                     break;
                 }
                 tl = tu;
@@ -1883,7 +1944,7 @@ Verdict k_involute(CaseCtx& cx)
         }
         return log.fail("involute: missing crossing at distance " + fmt(r.t3)
                             + describe_refs(),
-                        f13 ? "F13-involute-bracket-skips-root-pair" : "");
+                        f13 ? "F27-involute-bracket-skips-root-pair" : "");
     }
 
     //// per-crossing: sense flip and normal ////
@@ -1929,7 +1990,7 @@ Verdict k_involute(CaseCtx& cx)
                         + " (ref " + std::to_string(em.sense) + "), after "
                         + std::to_string(int(sp)) + " (ref "
                         + std::to_string(ep.sense) + ")",
-                    (k_m && k_p) ? "F14-involute-cw-negative-angle-sense"
+                    (k_m && k_p) ? "F28-involute-cw-negative-angle-sense"
                                  : "");
             }
             log.count("inv_flip_checked");
